@@ -369,8 +369,23 @@ struct Simplifier {
                 yield({GateType::S, {}, qs2_buf, inst.tag});
                 break;
             case GateType::CZ:
+                // CZ takes a classical control on either side, CX only first; bit-bit pairs do nothing.
+                ps_buf.clear();
+                qs2_buf.clear();
+                for (size_t k = 0; k < ts.size(); k += 2) {
+                    auto a = ts[k];
+                    auto b = ts[k + 1];
+                    if (!b.has_qubit_value()) {
+                        std::swap(a, b);
+                    }
+                    if (b.has_qubit_value()) {
+                        ps_buf.push_back(a);
+                        ps_buf.push_back(b);
+                        qs2_buf.push_back(b);
+                    }
+                }
                 yield({GateType::H, {}, qs2_buf, inst.tag});
-                yield({GateType::CX, {}, ts, inst.tag});
+                yield({GateType::CX, {}, ps_buf, inst.tag});
                 yield({GateType::H, {}, qs2_buf, inst.tag});
                 break;
             case GateType::SQRT_XX:
